@@ -80,6 +80,9 @@ def _gen(ctx, n, tag):
     return out
 
 
+_SUSPECTS: list = []
+
+
 # ---------------------------------------------------------------- L1
 def correspondence(ctx):
     progs = _gen(ctx, ctx.n(80, 1000), "L1")
@@ -111,6 +114,9 @@ def correspondence(ctx):
             dis.append({"name": "L1:real-table-not-certified(wf_prog)", "text": sh[idx][1]})
         for idx in lists[2]:
             dis.append({"name": "L1:_weave_states_in_region-vs-weave", "text": sh[idx][1]})
+    # programs on which model and code disagree are searched first (with more inputs) by L2
+    infos = {text: info for (text, info, st, ins) in progs}
+    _SUSPECTS[:] = [(d["text"], infos[d["text"]]) for d in dis if d.get("text") in infos][:24]
     return dis
 
 
@@ -173,6 +179,9 @@ def search(ctx, deep=False):
     for path, fn, ins in PROBES:
         items.append((open(path).read(), AC.Staged(open(path).read(), fn), ins))
         ctx.count({"probe": path, "fn": fn}, True, path + fn, "probe")
+    for text, info in _SUSPECTS:
+        ins = [accir.gen_inputs(ctx.rng, info, sty) for sty in (None, None, None, None, "one", "many", "many", "zero")]
+        items.append((text, AC.Staged(text), ins))
     items += [(t, st, ins) for (t, info, st, ins) in progs]
     fails = _l2_cases(items)
     seen, out = set(), []
